@@ -13,3 +13,25 @@
   (ite (< (firstWindow pr t) (slen (Pricing_PromotionsByTime pr)))
        (PromotionByTime_Discount (select (sarr (Pricing_PromotionsByTime pr)) (firstWindow pr t)))
        decOne))
+
+; volume promotion: firstAbove = least index whose threshold exceeds the volume (or len if none)
+(declare-fun firstAbove (Pricing Int) Int)
+(define-fun volAt ((pr Pricing) (j Int)) Int (PromotionByVolume_Volume (select (sarr (Pricing_PromotionsByVolume pr)) j)))
+(assert (forall ((pr Pricing) (v Int)) (! (let ((k (firstAbove pr v)) (n (slen (Pricing_PromotionsByVolume pr))))
+   (=> (<= 0 n) (and (<= 0 k) (<= k n) (=> (< k n) (< v (volAt pr k))))))
+   :pattern ((firstAbove pr v)))))
+(assert (forall ((pr Pricing) (v Int) (j Int)) (! (=> (and (<= 0 j) (< j (firstAbove pr v))) (<= (volAt pr j) v))
+   :pattern ((firstAbove pr v) (select (sarr (Pricing_PromotionsByVolume pr)) j)))))
+(define-fun discountByVolume ((pr Pricing) (v Int)) Int
+  (ite (= (firstAbove pr v) 0) decOne
+       (PromotionByVolume_Discount (select (sarr (Pricing_PromotionsByVolume pr)) (- (firstAbove pr v) 1)))))
+
+; ValidatePricing: windows well-formed, ordered and disjoint; volume thresholds non-decreasing
+(define-fun windowOK ((pr Pricing) (i Int)) Bool
+  (let ((p (select (sarr (Pricing_PromotionsByTime pr)) i)))
+    (and (> (PromotionByTime_EndTime p) (PromotionByTime_StartTime p))
+         (=> (> i 0) (>= (PromotionByTime_StartTime p) (PromotionByTime_EndTime (select (sarr (Pricing_PromotionsByTime pr)) (- i 1))))))))
+(define-fun volumeOK ((pr Pricing) (i Int)) Bool (=> (> i 0) (>= (volAt pr i) (volAt pr (- i 1)))))
+(define-fun validPricing ((pr Pricing)) Bool
+  (and (forall ((i Int)) (! (=> (and (<= 0 i) (< i (slen (Pricing_PromotionsByTime pr)))) (windowOK pr i)) :pattern ((select (sarr (Pricing_PromotionsByTime pr)) i))))
+       (forall ((i Int)) (! (=> (and (<= 0 i) (< i (slen (Pricing_PromotionsByVolume pr)))) (volumeOK pr i)) :pattern ((select (sarr (Pricing_PromotionsByVolume pr)) i))))))
